@@ -190,6 +190,12 @@ func (vc *VC) rangeNext(fr *Frame, st *State, x *ssa.Next) {
 	vis.T = sortBool
 	vc.assume(st, tImp(ok, tAnd(inDom, tNot(vis), tNot(tEq(rs.ref, mk("0", sortRef))))))
 	ks := vc.sortOf(m.Key())
+	if fr.contract != nil && fr.contract.opt("maporder") && fr.depth == 0 && !vc.inCommute && fr.loops[x.Block()] == nil {
+		// "option maporder": a range step that is not the head of a loop (the body always leaves after the first
+		// key) picks whichever key Go visits first - only a map with no other key makes that choice unique
+		only := mk(fmt.Sprintf("(forall ((|q!mk| %s)) (=> (select %s |q!mk|) (= |q!mk| %s)))", ks.Name, dom.S, k.S), sortBool)
+		vc.oblige(st, fr, "maporder.first", "", tImp(ok, only), "the first key of a map range is used without visiting the others: the choice depends on Go's map order", x.Pos())
+	}
 	vc.assume(st, tImp(tNot(ok), mk(fmt.Sprintf("(forall ((|q!mk| %s)) (=> (select %s |q!mk|) (select %s |q!mk|)))", ks.Name, dom.S, visited.S), sortBool)))
 	st.heap.known[comp] = vc.define("visited", tIte(ok, tStore(visited, k, tTrue), visited))
 	vc.written[comp] = true
